@@ -116,6 +116,10 @@ class ContextReuse(Suite):
         uses_cases = [dict(ctxs=[u, b], builds=[dict(use=[0], gv=None), dict(use=[0], gv=None)], form=f) for f in ('dict', 'object')] + \
                      [dict(ctxs=[v, u], builds=[dict(use=[0, 1], gv=None), dict(use=[1], gv=None), dict(use=[0], gv=None)], form=f)
                       for f in ('dict', 'object')]
+        # a context whose uses entries hold placeholders, reused with other global_vars
+        w = {'p': [2], 'uses': ['ctx_{X}.json']}
+        uses_cases += [dict(ctxs=[w, b], builds=[dict(use=[0], gv={'X': 'one'}), dict(use=[0], gv={'X': 'two'}), dict(use=[0, 1], gv={'X': 'one'})],
+                            form=f) for f in ('dict', 'object')]
         return uses_cases + [dict(ctxs=[a, b], builds=[dict(use=[0, 1], gv={'X': 'one'}), dict(use=[0], gv={'X': 'two'}),
                                           dict(use=[1, 0], gv=None), dict(use=[0], gv={'X': 'one'})], form='dict'),
                 dict(ctxs=[a, b], builds=[dict(use=[0], gv={'X': 'one'}), dict(use=[0], gv={'X': 'two'})], form='object'),
@@ -150,7 +154,7 @@ class ContextReuse(Suite):
         from ..suites_chain import K, P
         classes = [dict(K(0, 'Src', params=[P('p', default=[-1]), P('q', default=[-2])]), name='src')]
         files = {'pipe.json': {'tasks': ['@M.*']}, 'ctx_extra.json': {'q': ['from extra'], 'for_namespaces': {'m': {'p': 'extra m'}}},
-                 'ctx_other.json': {'p': {'other': 1}}}
+                 'ctx_other.json': {'p': {'other': 1}}, 'ctx_one.json': {'q': 'from one'}, 'ctx_two.json': {'q': 'from two'}}
         with pl.workspace(dict(classes=classes, files=files)) as (d, mod):
             def make(ctx_specs):
                 cs = [copy.deepcopy(c) for c in ctx_specs]
